@@ -199,6 +199,14 @@ fn resolve_mates_with(records: &mut [Record], generate_missing_names: bool) -> i
         .map(|(i, record)| record.mate_distance.map(|len| i + len + 1))
         .collect();
 
+    // A mate distance is the number of records to skip to the next fragment in the slice.
+    if mate_indices.iter().flatten().any(|&i| i >= records.len()) {
+        return Err(io::Error::new(
+            io::ErrorKind::InvalidData,
+            "invalid mate distance",
+        ));
+    }
+
     for i in 0..records.len() {
         let record = &mut records[i];
 
